@@ -264,6 +264,17 @@ def check(case):
             return
         with case.clause('s1_score'):
             case.close(sc, plain, rtol=1e-10, what='score returned with the sensitivities vs plain evaluation')
+        # the same point evaluated again (and again): same score, same gradient, and the arrays returned earlier keep
+        # their values
+        with case.clause('s1_repeat'):
+            g_first = np.array(g, dtype=float, copy=True)
+            for rep in (2, 3):
+                sc_r, g_r = obj.evaluateS1(x.copy())
+                case.close(sc_r, sc, rtol=0, atol=0, what='score of evaluateS1, call %d at the same point' % rep)
+                case.close(np.asarray(g_r, dtype=float), g_first, rtol=1e-13,
+                           what='gradient of evaluateS1, call %d at the same point' % rep)
+            case.close(np.asarray(g, dtype=float), g_first, rtol=0, atol=0,
+                       what='gradient array returned by the first call after two more calls')
         with case.clause('s1_length'):
             g = np.asarray(g, dtype=float)
             case.equal(g.shape, (obj.n_parameters(),), 'gradient shape', kind='shape')
